@@ -152,7 +152,8 @@ def analyse(text, fnmap, js, diags):
             for t in tags_on_line(lines[ln - 1]):
                 if t == 'CANARY':
                     continue
-                clauses.append({'fn': f['label'], 'tag': t, 'line': ln, 'text': lines[ln - 1].strip()[:400]})
+                clauses.append({'fn': f['label'], 'tag': t, 'line': ln, 'text': lines[ln - 1].strip()[:400],
+                                'assumed': not f['body'], 'src': f['src']})
     return errors, tool, limits, clauses
 
 
@@ -198,7 +199,7 @@ def run_batch(batch_name, seed=0, keep=True, retry=True):
     js, diags, dt, stderr = run_verus(path)
     errors, tool, limits, clauses = analyse(text, fnmap, js, diags)
     instab = []
-    if retry and (errors or limits) and not tool:
+    if retry and ([e for e in errors if not e['canary']] or limits) and not tool:
         # instability policy (3.1.6): reseed with a larger rlimit; an obligation that passes once is discharged
         still = None
         for k in range(2):
